@@ -76,6 +76,7 @@ type PathResult struct {
 	Steps       int64
 	Vars        []string
 	KFSeen      map[string]smt.Model
+	ClassTrue   []string // open classes true in Model (abnormal ends)
 	Assumed     []string
 	Unknowns    int
 	PCSize      int
@@ -208,7 +209,7 @@ func (w *Worker) run(entry *ssa.Function, item WorkItem, isInit bool) *PathResul
 	}
 	res.PCSize = len(i.path.pc)
 	if !isInit {
-		if i.path.model == nil && res.End == "done" {
+		if i.path.model == nil && (res.End == "done" || res.End == "panic" || res.End == "budget" || res.End == "deadlock") {
 			// need a model for differential validation: ask once
 			r, m := i.sess.Check(i.path.pc, i.path.vars)
 			if r == smt.Sat {
@@ -227,6 +228,14 @@ func (w *Worker) run(entry *ssa.Function, item WorkItem, isInit bool) *PathResul
 			}()
 		}
 		res.Observed = nil
+		if res.End != "done" && res.Model != nil {
+			ev := smt.NewEvaluator(i.ctx, res.Model)
+			for _, name := range i.path.classOrd {
+				if i.cfg.OpenKF[name] && !hasUF(i.path.classes[name]) && ev.Eval(i.path.classes[name]) == 1 {
+					res.ClassTrue = append(res.ClassTrue, name)
+				}
+			}
+		}
 		i.rollback()
 	}
 	return res
